@@ -83,6 +83,9 @@ type ChanObj struct {
 	closed bool
 	id     int
 	et     types.Type
+	// happens-before bookkeeping (race.go): clock of the sender per queued value, clock of the closer
+	qvc     []vclock
+	closeVC vclock
 	// waiting threads are tracked by the scheduler
 }
 
